@@ -304,7 +304,9 @@ mod repr {
 
         // residue = g - rhs * b
         let brhs_len = rhs_clone.len() + b.len();
-        let (residue, mut memory) = memory.allocate_slice_fill(brhs_len + 1, 0);
+        // (at least as long as lhs: the division below needs a dividend no shorter than the divisor,
+        // and when b is short the residue is simply zero-extended)
+        let (residue, mut memory) = memory.allocate_slice_fill((brhs_len + 1).max(lhs_len), 0);
         mul::multiply(&mut residue[..brhs_len], rhs_clone, &b, &mut memory);
         match b_sign {
             Sign::Negative => {
